@@ -1967,12 +1967,229 @@ def stream_lazy_product(ctx):
     ctx.cov['programs'] += 2
 
 
+# ------------------------------------------------------------------------------------------------
+# match_stereo=True / get_fast_mapping
+# ------------------------------------------------------------------------------------------------
+
+def labels_consistent(p, t, f):
+    """molecule pattern vs molecule target under the embedding f: every labelled element of the pattern lies on a labelled
+    element of the target (and vice versa for the image atoms / bonds) and the labels denote the same configuration (own parity /
+    flip arithmetic on the reference orders). True / False / None (outside the oracle)."""
+    for u, a in p._atoms.items():
+        lp, lt = a.stereo, t._atoms[f[u]].stereo
+        if (lp is None) != (lt is None):
+            return False
+        if lp is None:
+            continue
+        op_, ot_ = p.stereogenic_tetrahedrons.get(u), t.stereogenic_tetrahedrons.get(f[u])
+        if (op_ is None) != (ot_ is None):
+            return None
+        if op_ is not None:
+            env = [f[x] for x in op_]
+            if len(env) != len(ot_) or sorted(env) != sorted(ot_):
+                return None
+            if (lt != inversions_odd([ot_.index(e) for e in env])) != lp:
+                return False
+            continue
+        ep, et = p.stereogenic_allenes.get(u), t.stereogenic_allenes.get(f[u])
+        if ep is None or et is None:
+            return None
+        r = ends_pair_verdict(f, ep, et, lp, lt)
+        if r is None or r is False:
+            return r
+    for u, v, b in bond_list(p):
+        tb = t._bonds[f[u]].get(f[v])
+        if tb is None:
+            return None
+        if (b.stereo is None) != (tb.stereo is None):
+            return False
+        if b.stereo is None:
+            continue
+        kp, kt = p._stereo_cis_trans_terminals.get(u), t._stereo_cis_trans_terminals.get(f[u])
+        if kp is None or kt is None or kp not in p.stereogenic_cis_trans or kt not in t.stereogenic_cis_trans:
+            return None
+        r = ends_pair_verdict(f, p.stereogenic_cis_trans[kp], t.stereogenic_cis_trans[kt], b.stereo, tb.stereo)
+        if r is None or r is False:
+            return r
+    return True
+
+
+def ends_pair_verdict(f, ep, et, lp, lt):
+    """the pattern's reference substituent pair (slots 0, 1) read in the target's environment"""
+    x0, x1 = f.get(ep[0]), f.get(ep[1])
+    slot = {}
+    for k, y in enumerate(et):
+        if y is not None:
+            slot[y] = k
+    if x0 not in slot or x1 not in slot or (slot[x0] % 2) == (slot[x1] % 2):
+        return None
+    flip = (slot[x0] >= 2) != (slot[x1] >= 2)
+    return (lt != flip) == lp
+
+
+def match_stereo_check(p, t):
+    """whole-molecule pairs: `get_mapping(match_stereo=True)` = the isomorphisms that respect the labels (all of them without the
+    filter, exactly one with it)"""
+    if len(p) != len(t) or is_query(p):
+        return False, None, 'not a whole-molecule pair'
+    try:
+        emb = reference_embeddings(p, t, None, budget=500_000)
+    except OverflowError:
+        return False, None, 'reference budget exceeded'
+    vs = [labels_consistent(p, t, f) for f in emb]
+    if any(v is None for v in vs):
+        return False, None, 'outside the label oracle'
+    want = canon([f for f, v in zip(emb, vs) if v])
+    st, got = outcome(lambda: canon([dict(m) for m in p.get_mapping(t, match_stereo=True, automorphism_filter=False)]))
+    if st != 'ok':
+        return True, f'C07/match_stereo/raises/{st}', f'get_mapping(match_stereo=True) raised {st}'
+    if got != want:
+        kind = 'spurious' if any(m not in want for m in got) else 'missing' if len(set(got)) == len(got) else 'duplicate'
+        return True, f'C07/match_stereo/{kind}-mapping', f'real={len(got)} reference={len(want)} (label-respecting isomorphisms)'
+    st, gotf = outcome(lambda: canon([dict(m) for m in p.get_mapping(t, match_stereo=True)]))
+    if st != 'ok':
+        return True, f'C07/match_stereo/raises/{st}', f'get_mapping(match_stereo=True, automorphism_filter=True) raised {st}'
+    if len(gotf) != (1 if want else 0) or any(m not in want for m in gotf):
+        return True, 'C07/match_stereo/filter-not-one', f'filtered: {len(gotf)} mappings, reference has {len(want)}'
+    fm = p.get_fast_mapping(t)
+    if (fm is None) != (not want) or (fm is not None and tuple(sorted(fm.items())) not in want):
+        return True, 'C07/get_fast_mapping/disagrees', f'get_fast_mapping={fm} reference has {len(want)} label-respecting isomorphisms'
+    return False, None, f'{len(want)} label-respecting isomorphisms, real code agrees'
+
+
+def gen_ms_cases(ctx):
+    rng, quick = ctx.rng, ctx.quick
+    src = [(s_, molgen.parse(s_)) for s_ in STEREO_TARGETS]
+    src += [(tag, m) for tag, m in molgen.handmade() if 2 <= len(m) <= 14]
+    src += [(tag, m) for tag, m in molgen.corpus(rng, 60 if quick else 500) if labelled(m) and len(m) <= 30]
+    src = [(s_, m) for s_, m in src if m is not None]
+    if quick:
+        src = src[:len(STEREO_TARGETS)] + rng.sample(src[len(STEREO_TARGETS):], min(25, len(src) - len(STEREO_TARGETS)))
+    for s_, m in src:
+        base = wire.mol_to_ints(m)
+        pats = [('whole', base), ('whole-renumbered', wire.mol_to_ints(molgen.renumber(rng, m)[0]))]
+        for _ in range(1 if quick else 2):
+            if len(m) > 2:
+                cut = connected_cut(rng, m, rng.randint(2, len(m) - 1))
+                try:
+                    pats.append(('cut', wire.mol_to_ints(m.substructure(cut))))
+                except Exception:
+                    pass
+        tgs = [base, relabel(base, atoms='flip'), relabel(base, bonds='flip'), relabel(base, 'drop', 'drop'),
+               wire.mol_to_ints(shuffle_dicts(rng, m))]
+        tgs = [list(x) for x in dict.fromkeys(tuple(x) for x in tgs)]
+        for kind, pi in pats:
+            for ti in (tgs if not quick else [tgs[0]] + rng.sample(tgs[1:], min(2, len(tgs) - 1))):
+                yield f'match-stereo:{kind}:{s_}', pi, ti
+
+
+def enc_dict(d):
+    out = [len(d)]
+    for k, v in d.items():
+        out += [k, v]
+    return out
+
+
+def stream_match_stereo(ctx):
+    lines, meta = [], []
+    for tag, pi, ti in gen_ms_cases(ctx):
+        p, t = make_pattern({'mol': pi}), make_target(ti)
+        inp = {'pattern': {'mol': pi}, 'target': ti, 'match_stereo': True}
+        st_u, under = outcome(lambda: [dict(x) for x in p._get_mapping(t, automorphism_filter=True)])
+        if st_u != 'ok' or len(under) > 300:
+            ctx.dist('match-stereo-skipped')
+            continue
+        items = []
+        ok = True
+        for mp in under:
+            try:
+                sub = t.substructure(mp.values())
+                fm = p.get_fast_mapping(sub)
+                autos = [dict(a) for a in itertools.islice(sub.get_automorphism_mapping(), 400)]
+            except Exception as e:  # the branch itself raises: compared below through the outcome
+                ctx.dist('match-stereo-piece-raised:' + type(e).__name__)
+                ok = False
+                break
+            if len(autos) >= 400:
+                ok = False
+                break
+            items.append((fm, autos))
+            # get_fast_mapping alone: model (K) + proved checker on the real output (R) + none-iff-empty on label-free pairs
+            so, oo = list(p.smiles_atoms_order), list(sub.smiles_atoms_order)
+            eq = int(not (p != sub))
+            lines.append('FM ' + ' '.join(map(str, [len(p), len(sub)] + L(so) + L(oo) + [eq])))
+            meta.append(('FM', tag, inp, fm))
+            if fm:
+                ga = ga_line(p, sub, 0, None)
+                lines.append('IC ' + ga[3:] + ' ' + ' '.join(map(str, enc_dict(fm))))
+                meta.append(('IC', tag, inp, fm))
+            if not labelled(p) and not labelled(sub) and len(p) <= 16:
+                try:
+                    ref = reference_embeddings(p, sub, None, budget=200_000)
+                except OverflowError:
+                    ref = None
+                if ref is not None:
+                    ctx.count(('fm-iff', tag, tuple(pi), tuple(sorted(mp.values()))), nontrivial=bool(ref))
+                    ctx.dist('get_fast_mapping:none-iff-empty-checked')
+                    if (fm is None) != (not ref) or (fm is not None and fm not in ref):
+                        disagree(ctx, 'get_fast_mapping/none-iff-no-isomorphism',
+                                 f'{tag}: get_fast_mapping={"None" if fm is None else "a mapping"}, the reference has {len(ref)} isomorphisms', inp)
+        if not ok:
+            continue
+        for af in (1, 0):
+            st, r = outcome(lambda: [dict(x) for x in p.get_mapping(t, match_stereo=True, automorphism_filter=bool(af))])
+            out = [af, len(items)]
+            for fm, autos in items:
+                out += ([1] + enc_dict(fm)) if fm is not None else [0]
+                out.append(len(autos))
+                for a in autos:
+                    out += enc_dict(a)
+            lines.append('MS ' + ' '.join(map(str, out)))
+            meta.append(('MS', tag, inp, (st, r)))
+    if not ctx.build_ok or not lines:
+        return
+    resp = core.run_driver('C07', lines)
+    if len(resp) != len(lines):
+        disagree(ctx, 'driver', f'{len(resp)} responses for {len(lines)} requests (match_stereo stream)')
+        return
+    for line, (op, tag, inp, real), ans in zip(lines, meta, resp):
+        if op == 'FM':
+            ctx.count(line, nontrivial=real is not None)
+            ctx.dist('get_fast_mapping:' + ('none' if real is None else 'mapping'))
+            if real is None:
+                good = ans.strip() == 'ok none'
+            else:
+                _, _, ms = parse_gm(ans.replace('ok some', 'ok'))
+                good = ans.startswith('ok some') and ms and ms[0] == real
+            if not good:
+                disagree(ctx, 'get_fast_mapping/model', f'{tag}: real {real}, model {ans[:80]}', inp)
+        elif op == 'IC':
+            ctx.count(line)
+            ctx.dist('get_fast_mapping:checked-by-isoCheck')
+            if ans.strip() != 'ok chk=1 mem=1':
+                ctx.cov['disagreements_checked'] += 1
+                ctx.broke('relational', 'get_fast_mapping/is-a-get_mapping-result',
+                          f'{tag}: the real get_fast_mapping output is rejected by the proved checker: {ans}')
+                _state['suspects'].append(('get_fast_mapping', inp))
+        else:
+            st, r = real
+            ctx.count(line, nontrivial=bool(r))
+            ctx.dist('match_stereo:' + (st if st != 'ok' else '0' if not r else '1' if len(r) == 1 else '2+'))
+            mst, flags, ms = parse_gm(ans)
+            if (st == 'ok') != (mst == 'ok'):
+                disagree(ctx, 'get_mapping(match_stereo)/outcome', f'{tag}: real {st}, model {ans[:60]}', inp)
+            elif st == 'ok' and r != ms:
+                disagree(ctx, 'get_mapping(match_stereo)/sequence', f'{tag}: real {len(r)} mappings, model {len(ms)}', inp)
+    ctx.cov['programs'] += 2
+
+
 def correspond(ctx):
     from ..gen import pyx2py  # noqa: F401  (not installed: the pure-Python matcher is the implementation under test)
     _state['suspects'] = []
     stream_get_mapping(ctx)
     stream_automorphism(ctx)
     stream_lazy_product(ctx)
+    stream_match_stereo(ctx)
 
 
 # ------------------------------------------------------------------------------------------------
@@ -1999,6 +2216,8 @@ def check_input(inp):
         return automorphism_check(m)
     p = make_pattern(inp['pattern'])
     t = make_target(inp['target'])
+    if inp.get('match_stereo'):
+        return match_stereo_check(p, t)
     return property_check(p, t, inp.get('scope'), accelerated=bool(inp.get('accelerated')))
 
 
